@@ -3,6 +3,9 @@ from .. import cdb, ir, report
 from . import http_rules as H
 
 
+ANCHORED = ("http/http.c", "netbuf/netbuf_read.c", "netbuf/netbuf_write.c", "network/network_connect.c")
+
+
 def run(tier):
     rep = report.Report("C08", tier,
         "Decided on every path of http.c: exactly one disposition per handler path and no use of the request after release (LIN); "
@@ -10,7 +13,8 @@ def run(tier):
         "budget invariant bodylen + readlen <= limit at every store of readlen and every addbody call, with the accounting pair and "
         "toobig's free/clear/mark sequence (B1); every completion with a response and every body handler is behind the 100..599 status "
         "test (B2); freed request fields are cleared before the request is passed on, and the body is handed to the caller before the "
-        "request is released (FREENULL). Not decided: the header line-splitting assertions (a counting argument over header bytes), "
+        "request is released (FREENULL); in http.c, netbuf_read.c, netbuf_write.c and network_connect.c every acquisition is tested before "
+        "use and released on every failure path, and realloc never overwrites its argument (NULLCHK, LEAK, REALLOC, shared with C14). Not decided: the header line-splitting assertions (a counting argument over header bytes), "
         "termination, leaks on success paths beyond the single release point.",
         trusted=["netbuf_read_peek returns a window of exactly buflen readable bytes", "strto*/sscanf semantics of libc"])
     configs = [cdb.HOST]
@@ -26,10 +30,19 @@ def run(tier):
         H.budget(prog, rep, L)
         H.status_gate(prog, rep, L)
         H.freenull(prog, rep)
-        from . import c07
+        H.cookie_init(prog, rep, L)
+        from . import c07, c14
         c07.orphan_rule(prog, rep)     # "leaks nothing": the request's writer must not orphan a queued buffer
+        # "leaks nothing", "never reads or writes outside its own buffers": the allocation discipline of the anchored units
+        # (acquisitions tested before use, released on every failure path, realloc never over its argument; rules shared with C14)
+        wprog = ir.Program(None, cfg)
+        c14.leak_rules(wprog, rep, only_files=ANCHORED)
+        # "never aborts, never reads or writes outside its buffers": the reader's window invariant and launch preconditions (shared with C07)
+        c07.reader_window(wprog, rep)
     n = len(configs)
     rep.require_min("LIN", 11 * n)
     rep.require_min("B1-store", 2 * n)
     rep.require_min("B2-status", 5 * n)
+    rep.require_min("LEAK", 15 * n)
+    rep.require_min("NULLCHK", 12 * n)
     return rep
